@@ -573,12 +573,16 @@ func callsSort(f *ssa.Function, depth int) bool {
 	return false
 }
 
-// c15LocalZone (R15i): time.Unix / time.UnixMilli / time.UnixMicro return a Time in the process's LOCAL zone, and
-// time.Now likewise. In run-set library code such a value must be normalised by (Time).In(loc) or (Time).UTC() before it
-// is formatted or handed to a repository function — otherwise the emitted text depends on TZ / /etc/localtime of the
-// process. Also no use of the time.Local variable and no (Time).Local() call.
+// c15LocalZone (R15i): time.Unix / UnixMilli / UnixMicro and time.Now return a Time in the process's LOCAL zone. At every
+// zone-dependent sink in run-set library code (Format, AppendFormat, String, Marshal*, and the calendar accessors Date,
+// Clock, Year, Month, Day, Hour, Minute, Weekday, YearDay, Zone) the receiver must not derive from such a call unless it
+// passed through (Time).In(loc) or (Time).UTC() — otherwise the emitted text depends on TZ / /etc/localtime of the
+// process. The derivation is followed backwards through phis, local variables, parameters (to all call sites), results
+// of repository functions and of closures (VTA-resolved). Also no use of the time.Local variable / (Time).Local().
 func c15LocalZone(c *core.Ctx, e *entrySets) {
 	n := 0
+	sinks := map[string]bool{"Time.Format": true, "Time.AppendFormat": true, "Time.String": true, "Time.GoString": true, "Time.MarshalJSON": true, "Time.MarshalText": true,
+		"Time.Date": true, "Time.Clock": true, "Time.Year": true, "Time.Month": true, "Time.Day": true, "Time.Hour": true, "Time.Minute": true, "Time.Weekday": true, "Time.YearDay": true, "Time.Zone": true, "Time.ISOWeek": true}
 	for _, f := range repoFuncsIn(e.run) {
 		if core.IsCLIOrSample(core.FuncPkg(f)) {
 			continue
@@ -605,90 +609,133 @@ func c15LocalZone(c *core.Ctx, e *entrySets) {
 					c.Bad("R15i", core.FuncKey(f)+" calls Time.Local", core.InstrPos(in), "a time is converted to the process's local zone")
 					continue
 				}
-				if !(name == "Unix" || name == "UnixMilli" || name == "UnixMicro" || name == "Now") {
-					continue
-				}
-				call, ok := ci.(*ssa.Call)
-				if !ok {
+				if !sinks[name] {
 					continue
 				}
 				n++
-				key := core.FuncKey(f) + " zone of time." + name + " result"
-				bad, pos := c15LocalTimeEscapes(call, map[ssa.Value]bool{})
-				if bad != "" {
-					c.Bad("R15i", key, pos, "a time created by time."+name+" (process-local zone) reaches "+bad+" without (Time).In(loc) or (Time).UTC(): the emitted text depends on the process's time zone")
+				key := core.FuncKey(f) + " zone at time." + name
+				recv := ci.Common().Args[0]
+				if src := c15LocalOrigin(c, recv, map[ssa.Value]bool{}, 0); src != "" {
+					c.Bad("R15i", key, core.InstrPos(in), "the formatted time can be the raw result of "+src+" (process-local zone) without (Time).In(loc) or (Time).UTC() in between: the emitted text depends on the process's time zone")
 				} else {
-					c.OK("R15i", key, core.InstrPos(call), "normalised by In/UTC (or only used through zone-independent accessors) before it is formatted")
+					c.OK("R15i", key, core.InstrPos(in), "every origin of the formatted time is zone-normalised or has an explicit zone")
 				}
 			}
 		}
 	}
 	if n == 0 {
-		c.Unresolved("R15i", "local-zone time sources", "no time.Unix/Now call found on the run path")
+		c.Unresolved("R15i", "zone-dependent time sinks", "no Time.Format-like call found on the run path")
 	}
-	c.Floor("R15i", 2, "time.Unix in EpochToDateTimeRFC3339, time.Now in Now")
+	c.Floor("R15i", 1, "Time.Format in the RFC3339 formatter")
 }
 
-// c15LocalTimeEscapes follows a local-zone Time value: allowed uses are In/UTC (normalisation) and zone-independent
-// accessors (Unix*, Equal, Before, After, Sub, IsZero); phis and local cells are followed; anything else (Format, passing
-// to another function, returning, storing) is an escape.
-func c15LocalTimeEscapes(v ssa.Value, seen map[ssa.Value]bool) (string, token.Pos) {
-	if seen[v] {
-		return "", token.NoPos
+// c15LocalOrigin walks backwards from a time value; returns the name of a local-zone source that can reach it
+// un-normalised, or "".
+func c15LocalOrigin(c *core.Ctx, v ssa.Value, seen map[ssa.Value]bool, d int) string {
+	if v == nil || seen[v] || d > 12 {
+		return ""
 	}
 	seen[v] = true
-	for _, u := range core.Referrers(v) {
-		pos := core.InstrPos(u)
-		switch x := u.(type) {
-		case *ssa.DebugRef:
-		case *ssa.Phi:
-			if bad, p := c15LocalTimeEscapes(x, seen); bad != "" {
-				return bad, p
+	switch x := v.(type) {
+	case *ssa.Call:
+		o := core.CalleeObj(x)
+		if o != nil && o.Pkg() != nil && o.Pkg().Path() == "time" {
+			switch core.FuncName(o) {
+			case "Time.In", "Time.UTC":
+				return ""
+			case "Unix", "UnixMilli", "UnixMicro", "Now":
+				return "time." + core.FuncName(o)
+			case "Time.Add", "Time.AddDate", "Time.Round", "Time.Truncate":
+				return c15LocalOrigin(c, x.Call.Args[0], seen, d+1)
 			}
-		case *ssa.Store:
-			if a, ok := x.Addr.(*ssa.Alloc); ok && x.Val == v {
-				for _, ld := range loadsOfCell(a) {
-					if bad, p := c15LocalTimeEscapes(ld, seen); bad != "" {
-						return bad, p
-					}
-				}
-				// method calls on the addressable local (t.In(...) with t spilled) use the cell address as receiver
-				for _, r := range core.Referrers(a) {
-					if ci, ok := r.(ssa.CallInstruction); ok {
-						if bad := c15TimeCallKind(ci); bad != "" {
-							return bad, core.InstrPos(r)
+			return ""
+		}
+		for _, cf := range c.Callees(x) {
+			if cf.Blocks == nil || !core.InRepo(core.FuncPkg(cf)) {
+				continue
+			}
+			for _, b := range cf.Blocks {
+				for _, in := range b.Instrs {
+					if rt, ok := in.(*ssa.Return); ok && len(rt.Results) == 1 {
+						if s := c15LocalOrigin(c, rt.Results[0], seen, d+1); s != "" {
+							return s
 						}
 					}
 				}
-				continue
 			}
-			return "a stored location", pos
-		case ssa.CallInstruction:
-			if bad := c15TimeCallKind(x); bad != "" {
-				return bad, pos
-			}
-		case *ssa.Return:
-			return "a return value", pos
-		case *ssa.MakeInterface:
-			return "an interface value (formatting)", pos
-		default:
-			return fmt.Sprintf("%T", u), pos
 		}
-	}
-	return "", token.NoPos
-}
-
-func c15TimeCallKind(ci ssa.CallInstruction) string {
-	o := core.CalleeObj(ci)
-	if o == nil || o.Pkg() == nil {
-		return "a dynamic call"
-	}
-	if o.Pkg().Path() == "time" {
-		switch core.FuncName(o) {
-		case "Time.In", "Time.UTC", "Time.Unix", "Time.UnixNano", "Time.UnixMilli", "Time.UnixMicro", "Time.Equal", "Time.Before", "Time.After", "Time.Sub", "Time.IsZero", "Time.Nanosecond":
+	case *ssa.Extract:
+		call, ok := x.Tuple.(*ssa.Call)
+		if !ok {
 			return ""
 		}
-		return "time." + core.FuncName(o)
+		for _, cf := range c.Callees(call) {
+			if cf.Blocks == nil || !core.InRepo(core.FuncPkg(cf)) {
+				continue
+			}
+			for _, b := range cf.Blocks {
+				for _, in := range b.Instrs {
+					if rt, ok := in.(*ssa.Return); ok && x.Index < len(rt.Results) {
+						if s := c15LocalOrigin(c, rt.Results[x.Index], seen, d+1); s != "" {
+							return s
+						}
+					}
+				}
+			}
+		}
+	case *ssa.Phi:
+		for _, e := range x.Edges {
+			if s := c15LocalOrigin(c, e, seen, d+1); s != "" {
+				return s
+			}
+		}
+	case *ssa.UnOp:
+		if x.Op == token.MUL {
+			switch a := x.X.(type) {
+			case *ssa.Alloc:
+				for _, st := range storesToCell(a) {
+					if s := c15LocalOrigin(c, st.Val, seen, d+1); s != "" {
+						return s
+					}
+				}
+			case *ssa.FreeVar:
+				if b, ok := closureBinding(x.Parent(), a).(*ssa.Alloc); ok {
+					for _, st := range storesToCell(b) {
+						if s := c15LocalOrigin(c, st.Val, seen, d+1); s != "" {
+							return s
+						}
+					}
+				}
+			}
+		}
+	case *ssa.Alloc:
+		// address of a spilled local used as receiver
+		for _, st := range storesToCell(x) {
+			if s := c15LocalOrigin(c, st.Val, seen, d+1); s != "" {
+				return s
+			}
+		}
+	case *ssa.Parameter:
+		fn := x.Parent()
+		idx := -1
+		for i, p := range fn.Params {
+			if p == x {
+				idx = i
+			}
+		}
+		if node := c.CallGraph().Nodes[fn]; node != nil && idx >= 0 {
+			for _, in := range node.In {
+				args := in.Site.Common().Args
+				if in.Site.Common().IsInvoke() {
+					continue
+				}
+				if idx < len(args) {
+					if s := c15LocalOrigin(c, args[idx], seen, d+1); s != "" {
+						return s
+					}
+				}
+			}
+		}
 	}
-	return "a call of " + core.Rel(o.Pkg().Path()+"."+core.FuncName(o))
+	return ""
 }
